@@ -2,8 +2,23 @@
 (two parallel lists, both starting at 0, output offsets non-decreasing — what Replacer.__init__
 appends) the result is the input offset of the LAST table entry whose output offset is <= out_pos,
 plus the distance of out_pos from that entry.  `bisect.bisect_right` is used through its assumed
-contract (partition point of a sorted list); its sortedness precondition is an obligation."""
+contract (partition point of a sorted list); its sortedness precondition is an obligation.
+
+Second contract: the offsets loop of Combiner.__init__ (structural slice) against "entry m+1 =
+entry m + length of part m", proved with a loop invariant for any number of parts."""
+import ast
 from vlib.pysym import *
+from vlib.pysym.contract import NativeOutcome
+
+
+def _offsets_slice(fn):
+  """Combiner.__init__ from the statement `offset = 0` to the end: the loop that fills _offsets.
+  The statements before it (which turn each part into its text) are NOT covered here."""
+  for k, st in enumerate(fn.body):
+    if isinstance(st, ast.Assign) and isinstance(st.targets[0], ast.Name) and \
+        st.targets[0].id == "offset":
+      return fn.body[k:]
+  return None
 
 
 def build():
@@ -34,7 +49,43 @@ def build():
       "tables_untouched": "self._input_offsets == old(self._input_offsets) and "
                           "self._output_offsets == old(self._output_offsets)",
     },
-    notes="bisect.bisect_right through its assumed contract; integers are mathematical")]
+    notes="bisect.bisect_right through its assumed contract; integers are mathematical"),
+    _combiner(textbuilder)]
+
+
+def _combiner(textbuilder):
+  """Combiner.__init__'s offsets loop: one entry per part, the first 0, each next one the previous
+  plus the length of the previous part's text - hence non-decreasing, which is the sortedness
+  Combiner.map_back_patch's bisect calls rely on.  `text_parts` (the local list of the parts'
+  texts) enters as a ghost parameter: arbitrary sequences of characters, only len() is used."""
+  Comb = Obj("Combiner", real_cls=textbuilder.Combiner, _offsets=Seq(Int))
+  loop = LoopSpec(
+    "C37.combiner_offsets_loop", index="idx", locals=dict(self=Comb, offset=Int),
+    invariants={
+      "one_entry_per_part": "len(self._offsets) == idx and offset >= 0",
+      "first_is_zero": "implies(idx > 0, self._offsets[0] == 0)",
+      "each_entry_is_previous_plus_length": "forall(m, 0 <= m < idx - 1, "
+          "self._offsets[m + 1] == self._offsets[m] + len(text_parts[m]))",
+      "running_offset": "offset == (self._offsets[idx - 1] + len(text_parts[idx - 1]) "
+                        "if idx > 0 else 0)",
+    })
+  return Contract(
+    prefix="C37.combiner_offsets", target="textbuilder:Combiner.__init__",
+    file="sandbox/grist/textbuilder.py",
+    params=dict(self=Comb, parts=Opaque("Parts"), text_parts=Seq(Seq(Int))),
+    body_slice=_offsets_slice,
+    slice_desc="from the statement `offset = 0` to the end (the loop filling _offsets)",
+    loops={0: loop},
+    ensures={
+      "one_entry_per_part": "len(self._offsets) == len(text_parts)",
+      "first_is_zero": "implies(len(text_parts) > 0, self._offsets[0] == 0)",
+      "each_entry_is_previous_plus_length": "forall(m, 0 <= m < len(text_parts) - 1, "
+          "self._offsets[m + 1] == self._offsets[m] + len(text_parts[m]))",
+      "non_decreasing": "forall(m, 0 <= m < len(text_parts) - 1, "
+                        "self._offsets[m] <= self._offsets[m + 1])",
+    },
+    notes="text parts are sequences of characters (only their lengths are read); the statements "
+          "before the slice are covered by the bounded tier only")
 
 
 def _native(args):
@@ -45,5 +96,12 @@ def _native(args):
   return textbuilder.Replacer.get_input_pos(fake, args["out_pos"])
 
 
+def _native_combiner(args):
+  import textbuilder, types
+  comb = textbuilder.Combiner(["x" * len(t) for t in args["text_parts"]])
+  return NativeOutcome(None, dict(args, self=types.SimpleNamespace(_offsets=list(comb._offsets))))
+
+
 CONTRACTS = build()
 CONTRACTS[0].native = _native
+CONTRACTS[1].native = _native_combiner
